@@ -116,6 +116,7 @@ type vfProfile struct {
 	bigTxn    string // "" / "write" / "read": one transaction that exceeds a limit
 	yieldPct  int    // chance to yield/sleep between ops
 	file      bool   // file database: close and reopen at the end, compare
+	fkFocus   bool   // C08: bias towards the three-level foreign key chain (re-keyed targets, populated third level)
 }
 
 // ---- simulator ---------------------------------------------------------------------------------
@@ -537,6 +538,19 @@ func (s *vfSim) genRow(r *rand.Rand, table, payload string) vfRow {
 }
 
 func (s *vfSim) pickTable(r *rand.Rand) string {
+	if s.p.fkFocus {
+		switch n := r.IntN(100); {
+		case n < 32:
+			return "t1"
+		case n < 62:
+			return "t2"
+		case n < 90:
+			return "t5"
+		case n < 94:
+			return "t3"
+		}
+		return "t4"
+	}
 	switch n := r.IntN(100); {
 	case n < 34:
 		return "t1"
@@ -618,6 +632,14 @@ func (s *vfSim) runUpdateTxn(r *rand.Rand, worker, seq int) {
 				sc := s.scan(t, ut, "t2", 0, ixkey.Min, ixkey.Max, r.IntN(2) == 0, 1+r.IntN(3))
 				if len(sc.Rows) > 0 && sc.Err == "" {
 					src := sc.Rows[r.IntN(len(sc.Rows))]
+					if s.p.fkFocus { // prefer a t2 row that itself refers to a t1 row (full chain)
+						for _, cand := range sc.Rows {
+							if cand[1] != "" {
+								src = cand
+								break
+							}
+						}
+					}
 					row[1], row[2] = src[1], src[0]
 				}
 				if ut.ct.Failed() {
@@ -638,7 +660,11 @@ func (s *vfSim) runUpdateTxn(r *rand.Rand, worker, seq int) {
 			}
 			old := vfRowOf(rec.Record, len(def.cols))
 			newr := s.genRow(r, table, payload)
-			switch r.IntN(3) {
+			how := r.IntN(3)
+			if s.p.fkFocus && how != 2 && r.IntN(2) == 0 {
+				how = 2 // re-key (the case that exercises blocking and cascading updates)
+			}
+			switch how {
 			case 0: // keep the primary key, change the rest
 				for _, c := range def.idxs[0].cols {
 					j := s.sc.colIdx(table, c)
